@@ -72,6 +72,9 @@ fn main() {
     let sc = scripts(quick);
     let modes = [Mode::Eager, Mode::Burst, Mode::SlowRead];
     let cfgs = grid(&sc, if quick { &[8, 4096] } else { &[8, 48, 4096] }, &[2, 64], &modes, &[0]);
+    let mut small = asys::grid::with_small_lane_buf(&cfgs);
+    small.extend(cfgs);
+    let cfgs = small;
     run_grid(&ctx, GridSpec { name: "as-map-grid-d1".into(), cfgs, bound: 1, max_exec_per_cfg: 20_000, wall_cap_s: if quick { 22.0 } else { 1200.0 } });
     let core: Vec<_> = sc.iter().filter(|(s, _)| s.len() <= 4).cloned().collect();
     let cfgs = grid(&core, &[8], &[2, 3], &[Mode::Eager, Mode::SlowRead], &[0, 7]);
